@@ -27,6 +27,30 @@ reg(
 )
 
 reg(
+    "C06",
+    "model_checking",
+    "Exhaustive lattice method (MNDO/AM1/PM3) x every element pair of the s/sp tables (principal quantum numbers 1-1..3-3) x "
+    "distance (0.6-15 A: 9 stated, 8 in-between, and the two distances bracketing each junction of the overlap algorithm) x "
+    "orientation (+-x,+-y,+-z, +-generic) x trial densities (base + every symmetric one-hot, fixed pseudo-random, idempotent; "
+    "closed and open shell). Each lattice point is one diatomic pushed through the real hcore / overlap / fock / fock_u_batch / "
+    "G_XL_LR.G / CIS response build / pair_nuclear_energy kernels and compared block by block (overlap, 22 local and 100 rotated "
+    "two-centre integrals, Hcore, E_nuc, every Fock matrix) with an independent scalar reference model (prolate-spheroidal "
+    "quadrature overlaps, point-charge Dewar-Thiel multipoles with Klopman-Ohno damping, brentq additive terms, generic 4-index "
+    "rotation, dense J/K), plus reference-free identities (linearity fock(P+dP)-fock(P)=G(dP)=response(dP), fock_u(P/2,P/2)=fock(P), "
+    "centre exchange of w) and SCF single points of the molecule alphabet (Hcore/w/Fock block-wise, E_elec[P], E_nuc, E_iso, "
+    "E_tot, Hf, reference SCF restarted from the package density).",
+    "Trusted: nddo_ref.py as a statement of the published equations (self-tested every run: closed-form 1s-1s overlap, one-centre "
+    "limits, invariance to rotation about the bond); MOPAC unit constants and atomic heats; shipped CSV tables (shared input). "
+    "Mirrored MOPAC conventions: h_pp floor 0.1 eV in rho2, B-series evaluation decided by a probe (truncated at the pinned commit, "
+    "<= 2.4e-7 on overlaps). Tolerances 1e-7 eV integrals (measured 4.4e-9), 1e-9 overlaps (7.8e-12), 1e-10 identities (6e-14). "
+    "Bounds: H..Cl s/sp, the stated distance/orientation alphabet; PM6/PM6_SP, d orbitals and distances off the grid not covered. "
+    "There is no transition system behind the state/transition counts: states = lattice points evaluated in the reference, "
+    "transitions = block comparisons, traces = lattice points replayed against the implementation.",
+    "explicit enumeration of a finite input lattice on the real integral/Fock kernels against an independent reference model (conformance replay) plus algebraic identities",
+    "DESIGN.md section 4, C06",
+)
+
+reg(
     "C09",
     "model_checking",
     "(a) States (engine in {XL, KSA}, k in 3..9, buffer phase, resumed?) are explored exhaustively: the real XL_BOMD / "
